@@ -124,6 +124,22 @@ var QtyPool = []qty{
 	{"1", "1", "1 '1'"}, {"-1", "mg", ""}, {"0", "mg", "0 'mg'"}, {"1.5", "hours", "1.5 hours"},
 }
 
+// OrderingExtras: values for the equality/ordering check only - strings whose code-point order differs from
+// their UTF-16 code-unit order, and quantities whose units differ only in case or by a trailing s.
+func OrderingExtras() []Val {
+	var p []Val
+	for _, s := range []string{"z", "\uE000", "\uFF21", "\U0001F600", "\U00010000", "a\uFF21", "a\U0001F600"} {
+		p = append(p, strVal(s))
+	}
+	for _, q := range []qty{{"1", "Mg", "1 'Mg'"}, {"1", "ms", "1 'ms'"}, {"1", "m", "1 'm'"}, {"1", "Ms", "1 'Ms'"}, {"2", "m", "2 'm'"}, {"1", "mm", "1 'mm'"}, {"1", "mms", "1 'mms'"}} {
+		p = append(p, Val{ID: "q" + q.n + q.unit, Lit: q.lit, V: mustQty(q.n, q.unit), Kind: "Quantity", Class: "qty." + q.unit, RKind: "qty", RNum: ratOf(q.n), RStr: q.unit})
+	}
+	for i := range p {
+		attachRef(&p[i])
+	}
+	return p
+}
+
 var sysPool []Val
 
 // SystemPool returns the System value pool V (every System type, boundary
